@@ -52,6 +52,7 @@ fn table() -> Vec<Entry> {
         entry!("C16", c16, "exploration"),
         entry!("C17", c17, "exploration"),
         entry!("C18", c18, "exploration"),
+        entry!("C19", c19, "fault_enumeration"),
         entry!("C20", c20, "exploration"),
     ]
 }
